@@ -122,6 +122,10 @@ def run(ck):
                 if mt.get("shape") and (" " + mt["shape"]) in t and re.search(mt.get("error_class_regex", "$^"), cls.replace("-error[", "")) \
                         and re.search(mt.get("result_regex", ""), r):
                     fid = k["id"]
+                # decided on the case: the source has the shape the finding names + the way it fails
+                if mt.get("src_regex") and re.search(mt["src_regex"], unq(s[1:-1])) and re.search(mt.get("error_class_regex", "$^"), cls.replace("-error[", "")) \
+                        and re.search(mt.get("result_regex", ""), r):
+                    fid = k["id"]
             key = (knob, cls)
             if fid is None:
                 found_disagreement = True
